@@ -197,7 +197,13 @@ def run_seed(prop: str, name: str, repo: str) -> dict:
 def run_for_property(prop: str, repo: str | None = None) -> int:
     repo = repo or os.environ.get("PYODA_REPO", "/repo")
     jobs = []
-    seeds = sorted(n for n in os.listdir(SEEDED) if n.startswith(prop + "-") and os.path.isdir(os.path.join(SEEDED, n))) if os.path.isdir(SEEDED) else []
+    seeds = []
+    for n in sorted(os.listdir(SEEDED)) if os.path.isdir(SEEDED) else []:
+        mp = os.path.join(SEEDED, n, "meta.json")
+        if os.path.isfile(mp):
+            m0 = json.load(open(mp))
+            if (m0.get("run_property") or m0.get("property")) == prop:
+                seeds.append(n)
     with cf.ThreadPoolExecutor(max_workers=min(16, os.cpu_count() or 4)) as ex:
         for s in seeds:
             jobs.append(ex.submit(run_seed, prop, s, repo))
